@@ -51,7 +51,24 @@ def extra_eval(c, io, mo):
     return fails
 
 
+def report_pinned_side_effects(run):
+    """the regenerated obligation C08_save_pure pins the one state change found in a save body; it is a known finding and is
+    reported as such on every run (a NEW side effect breaks the obligation instead)"""
+    import os, re
+    gen = os.path.join(vlib.COQ, "theories", "gen", "Schema_gen.v")
+    try:
+        src = open(gen).read()
+    except OSError:
+        return
+    m = re.search(r"Definition save_side_effects[^:]*:[^=]*:=\s*\[(.*?)\]\.", src, re.S)
+    if m and "DecodingTree" in m.group(1):
+        for k in run.known:
+            if k.get("input_class") == "save_side_effect_decodingtree":
+                run.known_hits.append((k["key"], k["description"]))
+
+
 def post(run, cases, impl, model):
+    report_pinned_side_effects(run)
     """no uninitialised memory in an image: the same cases are run again with a different heap fill pattern
     (ASan malloc_fill_byte) and every saved image must have the same hash as in the first run"""
     exe, _ = vlib.build_driver("asan")
